@@ -20,12 +20,13 @@ RULE = (
     "quarter, middle, at upper} x 11 sample values from 0 to overshoots of many widths (one perturbation per sample, the "
     "second variable gets the samples in a different order), with and without a VariableScaler. Oracle in the user domain: "
     "raw = x + m*s; NONE -> raw; TRUNCATE -> clip; MIRROR -> raw if inside, the single reflection if it lands inside, "
-    "otherwise only 'within bounds' is required. Checked on the evaluator rows and on reported perturbed_variables. "
+    "otherwise the folded value or a bound value is required. Checked on the evaluator rows and on reported perturbed_variables. "
     "Every case is non-trivial; distinct = distinct parameter tuple."
 )
 ASSUMPTIONS = [
     "dyadic bounds/magnitudes/samples so that x + m*s is exact without a scaler (compared with ==); 1e-12 relative with a scaler",
-    "multi-width mirror overshoots are unspecified by the statement: only membership in the bounds is judged there",
+    "multi-width mirror overshoots: the statement does not say how often the reflection is repeated, so the repeated "
+    "reflection (fold) OR a bound value (give-up by clipping) are both accepted, nothing else",
 ]
 BOUNDS = {"quick": "per-variable alphabet of 120 settings, all 120x120 pairs x scaler on/off", "thorough": "same, plus a second scaler and the reversed sample pairing"}
 
@@ -80,7 +81,12 @@ def expected_value(setting: dict[str, Any], x: float, s: float) -> tuple[str, fl
     refl = 2 * lb - raw if raw < lb else 2 * ub - raw
     if lb <= refl <= ub:
         return "exact", refl, lb, ub
-    return "within", raw, lb, ub
+    # several bound widths beyond: repeated reflection (a fold into the interval) or, when the implementation gives up,
+    # a bound value; anything else inside the interval is not a reflection of raw at all
+    width = ub - lb
+    t = (raw - lb) % (2 * width)
+    fold = lb + (t if t <= width else 2 * width - t)
+    return "fold-or-bound", fold, lb, ub
 
 
 def judge(case: dict[str, Any]) -> Judgement:
@@ -142,6 +148,11 @@ def judge(case: dict[str, Any]) -> Judgement:
                         j.fail(sig, where=name, variable=v, x=xs[v], sample=s, observed=got, expected=value, setting=settings[v])
                 elif not (lb - tol * (1 + abs(lb)) <= got <= ub + tol * (1 + abs(ub))):
                     j.fail(f"{bt}:outside-bounds", where=name, variable=v, x=xs[v], sample=s, observed=got, lb=lb, ub=ub)
+                elif rule == "fold-or-bound":
+                    t2 = max(tol, 1e-12)
+                    if not any(abs(got - c) <= t2 * (1 + abs(c)) for c in (value, lb, ub)):
+                        j.fail(f"{bt}:multi-width-overshoot-neither-reflected-nor-bound", where=name, variable=v, x=xs[v], sample=s,
+                               observed=got, fold=value, lb=lb, ub=ub)
     j.outcome = f"bt={s0['btype']}{s1['btype']}/bk={s0['bk'][0]}{s1['bk'][0]}/pt={s0['ptype']}{s1['ptype']}"
     return j
 
